@@ -41,7 +41,7 @@ func verifTableSeq(k int) gpbft.PowerEntries {
 func VerifC09_PutGetModel() {
 	ctx := context.Background()
 	ds := newVerifDS()
-	first, freq := verifParams(uint8(2 + sym.Tier()))
+	first, freq := verifParams(uint8(1 + 2*sym.Tier()))
 	nops := 3 + sym.Tier()
 
 	cs, err := CreateStore(ctx, ds, first, verifTableSeq(0))
